@@ -12,13 +12,17 @@ def run(tier, rep):
         "histories: N fresh processes, each running the whole corpus twice in its own seeded order (so every item runs after a different set of "
         "earlier transforms, with pools/caches warm and the ID counter advanced), plus fresh processes that run a single item only",
         "the `now` function and randomness-drawing scripts are excluded (not in the corpus)",
+        "every process runs under another TZ / locale environment (UTC, Asia/Tokyo, America/St_Johns, ...): the process environment is not an argument of the function",
     ]
     vh = vlib.build_harness()
     nproc = 6 if thorough else 3
     runs = []  # (proc, item, occ, results)
+    # the environment of the process is not an argument of the function either: every process gets another local zone / locale
+    envs = [{"TZ": "UTC"}, {"TZ": "Asia/Tokyo", "LANG": "ja_JP.UTF-8"}, {"TZ": "America/St_Johns", "LC_ALL": "C"},
+            {"TZ": "Pacific/Chatham"}, {"TZ": "Europe/Berlin", "LANG": "de_DE.ISO-8859-1"}, {"TZ": "America/Los_Angeles"}]
     for k in range(nproc):
         out = os.path.join(vlib.scratch(), "c15.proc%d.ndjson" % k)
-        recs, _ = vlib.run_vh(["c15-run", out, str(k)])
+        recs, _ = vlib.run_vh(["c15-run", out, str(k)], env=envs[k % len(envs)])
         for x in recs:
             if x.get("kind") == "summary":
                 rep.add_summary(x)
@@ -27,7 +31,7 @@ def run(tier, rep):
     singles = items[:: max(1, len(items) // (12 if thorough else 5))]
     for i, name in enumerate(singles):
         out = os.path.join(vlib.scratch(), "c15.single%d.ndjson" % i)
-        recs, _ = vlib.run_vh(["c15-run", out, str(100 + i), "only=" + name])
+        recs, _ = vlib.run_vh(["c15-run", out, str(100 + i), "only=" + name], env=envs[(i + 1) % len(envs)])
         for x in recs:
             if x.get("kind") == "summary":
                 rep.add_summary(x)
